@@ -27,8 +27,10 @@ inductive SliceEnd (V : Type) where
   /-- an instruction returned `Err(e)` — a builtin domain error, an operation that is not allowed
       inside a receive function, a failed await source reached by a select, … -/
   | raises (e : ErrClass)
-  /-- the process parked itself (select → `selecting`, spawn → `spawning`): not re-queued -/
-  | parks
+  /-- the process parked itself in `selecting` (`mark_selecting` inside the Select instruction) -/
+  | parksSelecting
+  /-- the process parked itself in `spawning` (`mark_spawning` inside the Spawn instruction) -/
+  | parksSpawning
   /-- the last frame was exhausted with an empty stack: `result = Err(StackUnderflow)` and an early
       `return` that skips the awaiter loop -/
   | finishesEmpty
@@ -75,7 +77,11 @@ def Exec.endSlice {V} (ex : Exec V) (pid : Nat) (p' : Proc V) : SliceEnd V → E
     let ex1 := ex.setProc pid p'
     -- `should_requeue = !spawning.contains && !selecting.contains`
     if pid ∈ ex1.spawning ∨ pid ∈ ex1.selecting then ex1 else { ex1 with queue := ex1.queue ++ [pid] }
-  | .parks => ex.setProc pid p'
+  | .parksSelecting => (ex.setProc pid p').markSelecting pid
+  | .parksSpawning =>
+    let ex1 := ex.setProc pid p'
+    { ex1 with spawning := if pid ∈ ex1.spawning then ex1.spawning else ex1.spawning ++ [pid],
+               queue := ex1.queue.filter (· != pid) }
   | .finishes v =>
     (ex.setProc pid { p' with result := some (.ok v) }).announce pid (.ok v)
   | .raises e =>
